@@ -477,6 +477,8 @@ class EvolvableNetwork(EvolvableModule, metaclass=NetworkMeta):
         else:
             encoder = self._build_encoder(self.encoder.net_config)
 
+        # Layer mutations stay disabled for the encoder (see __init__)
+        encoder.disable_mutations(MutationType.LAYER)
         self.encoder = EvolvableModule.preserve_parameters(self.encoder, encoder)
 
     def _build_encoder(self, net_config: Dict[str, Any]) -> DefaultEncoderType:
